@@ -29,7 +29,7 @@ ID = 'LINK'
 COQ_PROPS = ['Props/C07link.v', 'Props/C09link.v', 'Props/C10link.v']
 THEOREMS = ['C07_valid_content', 'C07_content_valid_partial', 'C07_content_valid_refuted', 'C07_serialisable',
             'C07_closure_serialisable', 'C07_closure_reloads', 'C07_C19_inject_models_agree',
-            'C09_from_to_content', 'C09_constructors_agree_content', 'C09_from_json_models_agree', 'C09_roundtrip_ext',
+            'C09_from_to_content', 'C09_constructors_agree_content', 'C09_from_json_models_agree', 'C09_roundtrip_ext', 'C09_qtok_dec_float',
             'C10_gate_ext_partial', 'C10_gate_ext_refuted', 'C10_gates_accept_valid', 'C10_valid_iff_rules']
 ALLOWED_AXIOMS = []
 TABLES = ['t_content', 't_classes', 't_ext_tol', 't_cli']
